@@ -7,7 +7,7 @@
   All theorems are for arbitrary key/value types with decidable key equality and an
   arbitrary folding function `lower`.
 -/
-import Upnp.Lemmas.C16Sim
+import Upnp.Lemmas.C16Obs
 namespace Upnp.C16
 open Upnp PyDict CIDict
 variable {κ ν : Type} [DecidableEq κ] (lower : κ → κ)
@@ -121,6 +121,65 @@ theorem raises_spec (R : Nat → CIDict κ ν) (S : Nat → SMap κ ν) (op : Op
     rw [(h r).same] at this
     cases h1 : delLower (R r) lk <;> cases h2 : get? (S r) lk <;> simp_all
   | _ => rfl
+
+/-- `==` between two header maps is equality of the abstract maps' (folded name ↦ value) content:
+    spelling and order are irrelevant -/
+theorem eq_spec [DecidableEq ν] {a b : CIDict κ ν} {m n : SMap κ ν} (ha : Sim lower a m) (hb : Sim lower b n) :
+    eqCI lower a b = smapEq m n := by
+  unfold eqCI smapEq
+  rw [asLowerDict_abs lower ha.inv, asLowerDict_abs lower hb.inv]
+  have k1 := keys_mapVal (abs lower a) (fun q : κ × ν => q.2)
+  have k2 := keys_mapVal (abs lower b) (fun q : κ × ν => q.2)
+  have k3 := keys_mapVal m (fun q : κ × ν => q.2)
+  have k4 := keys_mapVal n (fun q : κ × ν => q.2)
+  rw [Bool.eq_iff_iff,
+    eqv_iff _ _ (k1 ▸ ha.inv.absNodup lower) (k2 ▸ hb.inv.absNodup lower),
+    eqv_iff _ _ (k3 ▸ ha.nodup) (k4 ▸ hb.nodup)]
+  simp only [get?_mapVal, ha.same, hb.same]
+
+/-- `==` with a plain mapping compares against that mapping written into an empty abstract map -/
+theorem eq_dict_spec [DecidableEq ν] {a : CIDict κ ν} {m : SMap κ ν} (ha : Sim lower a m) (l : List (κ × ν)) :
+    eqDict lower a (PyDict.ofList l) = smapEq m (SMap.writeAll lower [] (PyDict.ofList l)) := by
+  have hb := sim_ofDict lower l
+  rw [← eq_spec lower ha hb]
+  unfold eqDict eqCI
+  rw [asLowerDict_abs lower hb.inv, asLowerDict_abs lower ha.inv]
+  have hn := ofDict_inv lower (PyDict.ofList l) (nodup_keys_ofList l)
+  apply eqv_congr_right
+  · rw [keys_mapVal (f := fun q : κ × ν => q.2)]; exact ha.inv.absNodup lower
+  · exact nodup_keys_ofList _
+  · rw [keys_mapVal (f := fun q : κ × ν => q.2)]; exact hn.absNodup lower
+  · -- both operands have the same lookups: the last value written under each folded name
+    intro x
+    rw [get?_mapVal, ofDict_abs lower _ (nodup_keys_ofList l), get?_writeAll_nil, get?_ofList,
+      ← List.map_reverse, ← List.map_reverse, get?_map_find?, get?_map_find?]
+    cases (PyDict.ofList l).reverse.find? (fun p => decide (lower p.1 = x)) <;> rfl
+
+/-- **The run-time judge accepts every observation of the model**: whatever is observed of a header
+    map in simulation with `m` (lookups by any probe spellings, membership, length, iteration,
+    lower-cased view, `as_dict`, `case_map`) passes `obsOk lower m` — the same predicate the
+    correspondence driver evaluates on the implementation's observations. -/
+theorem obs_ok [DecidableEq ν] {d : CIDict κ ν} {m : SMap κ ν} (h : Sim lower d m) (probes : List κ) :
+    obsOk lower m (observe lower probes d) = true := by
+  have hc := content_spec lower h
+  unfold obsOk observe
+  simp only [Bool.and_eq_true, beq_iff_eq, List.all_eq_true, List.mem_map, forall_exists_index, and_imp]
+  refine ⟨⟨⟨⟨⟨⟨⟨?_, ?_⟩, ?_⟩, ?_⟩, ?_⟩, ?_⟩, ?_⟩, ?_⟩
+  · exact len_spec lower h
+  · rw [iter_abs lower]; exact sameSet_of_perm (hc.map _)
+  · rintro _ k _ rfl; exact lookup_spec lower h k
+  · rintro _ lk _ rfl; exact getLower_spec lower h lk
+  · rintro _ k _ rfl; exact contains_spec lower h k
+  · rw [asLowerDict_abs lower h.inv]; exact sameSet_of_perm (hc.map _)
+  · rw [asDict_abs lower]; exact sameSet_of_perm (hc.map _)
+  · exact sameSet_of_perm ((cmap_perm lower h.inv).trans (hc.map _))
+
+/-- hence: after **any** operation sequence the judge accepts the model's observation of every register -/
+theorem c16_judge_accepts_model [DecidableEq ν] (ops : List (Op κ ν)) (hw : ∀ op ∈ ops, WF lower op)
+    (probes : List κ) (r : Nat) :
+    obsOk lower (ops.foldl (stepS lower) (fun _ => []) r)
+      (observe lower probes (ops.foldl (stepM lower) (fun _ => CIDict.empty) r)) = true :=
+  obs_ok lower (c16_history lower ops hw r) probes
 
 /-- The most recent write wins and keeps its spelling, whatever happened before. -/
 theorem last_write_wins (ops : List (Op κ ν)) (hw : ∀ op ∈ ops, WF lower op) (r : Nat) (k k' : κ) (v : ν)
